@@ -51,6 +51,51 @@ def _chain_language(ctx):
               f"in two by TractParser", key='RX-LANG|aliquot_unpacker_regex|chains', witness=repr(cex))
 
 
+def dup_scan_and_cut(ctx):
+    """(a) The duplicate warning is computed from the list it is about: a scan
+    of `.qqs` that only runs when some OTHER collection has more than one
+    entry (`len(self.aliquots_whole) > 1`) misses repeats that collection does
+    not count ('NE/4, ALL').  (b) A lot group is cut out of the remaining text
+    from where its whole match starts: cutting from the start of an inner
+    group leaves the leading aliquot in the text, where the aliquot pass finds
+    it again as an aliquot of the section."""
+    from ..srcmodel import facts_at
+    gf = ctx.repo.func('TractParser.gen_flags')
+    n = 0
+    for c in walk_local(gf.node):
+        if isinstance(c, ast.Call) and (dotted(c.func) or '').split('.')[-1] == 'find_duplicates' and c.args:
+            subject = norm(c.args[0])
+            n += 1
+            facts = [t for _e, t, _p in facts_at(c)]
+            par = getattr(c, '_parent', None)
+            if isinstance(par, ast.IfExp):
+                facts += [norm(par.test)]
+            foreign = [t for t in facts if 'len(' in t and subject not in t]
+            ctx.check(not foreign, 'DEFUSE', f"gen_flags: the duplicate scan of {subject} does not depend on another collection",
+                      detail_bad=f"`{norm(c)}` runs only if `{foreign[0] if foreign else ''}`: that is the size of a different "
+                                 f"collection, which need not count everything that ends up in {subject} (a stand-alone 'ALL' is in "
+                                 f".qqs four times over but not in .aliquots_whole) - repeated QQs then carry no dup_qq warning",
+                      key=f"DEFUSE|gen_flags|dup-scan-gated|{subject}", where=common.loc(gf, c))
+    tp = ctx.repo.func('TractParser.parse')
+    for x in walk_local(tp.node):
+        if isinstance(x, ast.Subscript) and isinstance(x.slice, ast.Slice) and 'remaining' in norm(x.value):
+            for bound in (x.slice.lower, x.slice.upper):
+                if bound is None:
+                    continue
+                exprs = [bound]
+                if isinstance(bound, ast.Name):
+                    exprs = [a.value for a in walk_local(tp.node) if isinstance(a, ast.Assign) and norm(a.targets[0]) == bound.id]
+                inner = [c for e in exprs for c in ast.walk(e) if isinstance(c, ast.Call) and isinstance(c.func, ast.Attribute)
+                         and c.func.attr in ('start', 'end') and c.args and not (isinstance(c.args[0], ast.Constant) and c.args[0].value == 0)]
+                n += 1
+                ctx.check(not inner, 'DEFUSE', f"TractParser.parse: `{norm(x)[:40]}` is cut at the bounds of the whole match",
+                          detail_bad=f"the cut uses `{norm(inner[0]) if inner else ''}` (an inner group): whatever the match holds outside "
+                                     f"that group - the aliquot in front of a lot group - stays in the text and is found again by "
+                                     f"the aliquot pass ('N/2 of Lot 2' with divisions suppressed: L2 plus the whole N/2 as QQs)",
+                          key="DEFUSE|TractParser.parse|cut-inner-group", where=common.loc(tp, x))
+    ctx.floor('duplicate scans and text cuts examined', n, 3)
+
+
 def ilots_after_l(ctx):
     """the integer of a lot is taken from the part after the LAST 'L': a lot
     division ('N2 of L7') has digits and letters of its own in front"""
@@ -175,6 +220,7 @@ def check(ctx):
     ctx.attempt(_acreage)
     ctx.attempt(forward.check_all, module_suffixes=('unpack.unpackers', 'tract.tract_parse', 'tract.tract'))
     ctx.attempt(common.flag_prefix_tests)
+    ctx.attempt(dup_scan_and_cut)
     ctx.attempt(lockdown, ctx.repo.func('Tract.parse'), only=('include_lot_divs', 'suppress_lot_divs', 'parse_qq'))
     ctx.attempt(common.embedded_case_consistency, modules=('rgxlib.lots', 'rgxlib.aliquots'))
     ctx.attempt(_chain_language)
